@@ -31,6 +31,7 @@ THEOREMS = {n: "Props.C13" for n in [
     "C13_l1d_data_roundtrip_Qc", "C13_datasaver_roundtrip", "C13_balancing_roundtrip"]}
 
 SIG_F7 = "C13:F7 Learner2D unusable on numpy>=2.x/scipy>=1.15"
+SIG_CYCLE = "C13:BalancingLearner:pickle strategy='cycle' restarts at the first child (position in the cycle is not part of the pickled state)"
 MECHS = ["save_gz", "save_raw", "pickle", "cloudpickle", "copy_from"]
 LOSS_RTOL = 1e-12
 ASK_RTOL = 1e-10
@@ -124,7 +125,7 @@ def gen_cfg(rng, kind, quick):
         return {"kind": kind, "a": a, "atol": rng.choice([0.01, 0.1]), "rtol": rng.choice([0.01, 1.0]),
                 "min_npoints": rng.choice([2, 5]), "n": rng.randint(2, 30)}
     if kind == "avg1d":
-        return {"kind": kind, "a": a, "bounds": (-1.0, 1.0), "n": rng.randint(6, 40 if quick else 90)}
+        return {"kind": kind, "a": a, "bounds": (-1.0, 1.0), "n": rng.randint(10, 150 if quick else 600)}
     if kind == "seq":
         return {"kind": kind, "a": a, "elems": rng.choice(["int", "list"]), "ntotal": rng.choice([3, 5, 10, 25]),
                 "n": rng.randint(1, 25)}
@@ -200,6 +201,24 @@ def set_factor(l, cfg):
 
 
 # ------------------------------------------------------------------ histories
+def progress(l):
+    try:
+        return l.nsamples            # AverageLearner1D resamples: count samples, not locations
+    except AttributeError:
+        return l.npoints
+
+
+def ask_any(l, cfg, rng, k):
+    """One request for points.  BalancingLearner cannot ask an IntegratorLearner child
+    (IntegratorLearner.tell_pending() takes no point -> TypeError in BalancingLearner.tell_pending):
+    there the children are asked directly and the results are told through the wrapper."""
+    if cfg.get("wrap") == "balancing" and cfg["kind"] == "int":
+        i = rng.randrange(len(l.learners))
+        pts, imps = l.learners[i].ask(k)
+        return [(i, p) for p in pts], imps
+    return l.ask(k)
+
+
 def drive(l, cfg, rng):
     """Ask-driven history with out-of-order delivery that ends with nothing pending.
     Returns the list of (point, value) in delivery order."""
@@ -207,9 +226,9 @@ def drive(l, cfg, rng):
     wait, hist = [], []
     target = cfg["n"]
     stuck = 0
-    while l.npoints < target and stuck < 3:
+    while progress(l) < target and stuck < 3:
         try:
-            pts, _ = l.ask(rng.choice([1, 1, 2, 3, 5]))
+            pts, _ = ask_any(l, cfg, rng, rng.choice([1, 1, 2, 3, 5]))
         except RuntimeError as e:      # IntegratorLearner: "No way to improve the integral estimate"
             if "No way to improve" in str(e):
                 break
@@ -231,6 +250,19 @@ def drive(l, cfg, rng):
         l.tell(p, y)
         hist.append((p, y))
     return hist
+
+
+def outstanding(l, cfg):
+    """Points handed out and not yet delivered.  (IntegratorLearner.pending_points also holds the points
+    still waiting in its own stack, which were never handed out.)"""
+    kids = l.learners if cfg.get("wrap") == "balancing" else [base_of(l, cfg)]
+    n = 0
+    for k in kids:
+        pend = set(k.pending_points)
+        if cfg["kind"] == "int":
+            pend -= set(k._stack)
+        n += len(pend)
+    return n
 
 
 # ------------------------------------------------------------------ observation
@@ -266,15 +298,19 @@ def data_of(l, cfg):
     if kind == "seq":
         return {"data": list(l.data.items())}           # a SortedDict: order matters
     if kind == "int":
-        return {"data": dict(l.data), "igral": float(l.igral), "err": float(l.err), "nivals": len(l.ivals)}
+        return {"data": dict(l.data), "nivals": len(l.ivals), "npending": len(l.pending_points)}
     if kind == "avg":
         return {"data": dict(l.data), "npoints": l.npoints}
     return {"data": dict(l.data)}
 
 
 def means_of(l, cfg):
-    """AverageLearner1D.data (the means): derived values, compared up to rounding."""
+    """Derived values compared up to rounding: AverageLearner1D.data (running means vs batch means) and the
+    IntegratorLearner's igral / err (sums over a SET of intervals: the summation order follows object ids)."""
     w = cfg.get("wrap")
+    if cfg["kind"] == "int":
+        kids = l.learners if w == "balancing" else [base_of(l, cfg)]
+        return [{"igral": float(k.igral), "err": float(k.err)} for k in kids]
     if cfg["kind"] != "avg1d":
         return None
     if w == "balancing":
@@ -322,17 +358,30 @@ def demands(cfg, mech):
     """What the property demands of this (learner, mechanism): (loss: None|'exact'|'close', ask: likewise)."""
     kind = cfg["kind"]
     if mech in ("pickle", "cloudpickle"):
-        return "exact", (None if kind == "avg1d" else "exact")
+        # IntegratorLearner.loss() sums over a set of interval objects (iteration order = object ids, which
+        # differ between any two processes/copies): equal up to the rounding of that sum
+        return ("close" if kind == "int" else "exact"), (None if kind == "avg1d" else "exact")
     # file / copy_from: only for learners whose state is a function of their data
     if kind == "l1d" and cfg["factor"] != 1:
         return None, None
+    if cfg.get("wrap") == "balancing" and cfg.get("strategy") == "cycle":
+        return "close", None            # the position in the cycle is not a function of the data
     return "close", (None if kind == "avg1d" else "close")
 
 
 def restore(l, cfg, mech, workdir, tag):
     """Produce a restored copy through one mechanism."""
     if mech == "pickle":
-        return pickle.loads(pickle.dumps(l))
+        try:
+            return pickle.loads(pickle.dumps(l))
+        except (AttributeError, pickle.PicklingError) as e:
+            # Learner1D.__getstate__ hands loss_per_interval to the pickler as it is; the shipped
+            # curvature_loss_function() / resolution_loss_function() return local closures, which the
+            # standard pickler cannot serialise by design (cloudpickle can): no restored learner exists,
+            # the property says nothing.  Counted, see the final report of the builder.
+            if "local object" in str(e) and cfg.get("loss") in ("curvature", "resolution"):
+                return None
+            raise
     if mech == "cloudpickle":
         return cloudpickle.loads(cloudpickle.dumps(l))
     c = l.new()
@@ -362,26 +411,37 @@ def name_of(cfg):
 
 def check_case(chk, cfg, seed, stats, workdir, tag):
     """One history, all mechanisms.  Returns True if the history was usable."""
-    rng = random.Random(seed)
-    l = make(cfg)
+    l, l2 = make(cfg), make(cfg)
     try:
-        hist = drive(l, cfg, rng)
+        hist = drive(l, cfg, random.Random(seed))
+        # copy_from may hand the original's containers to the copy (IntegratorLearner, AverageLearner,
+        # Learner2D return them from _get_data as they are); an identical twin of the original, built by
+        # replaying the same history, keeps "what the copy suggests" apart from "what happens to two
+        # learners that share containers", about which the property says nothing
+        drive(l2, cfg, random.Random(seed))
     except Exception as e:        # internal errors of ask/tell under out-of-order delivery belong to C04/C07 (F1, F5, F12)
-        stats["skipped_other_finding"][f"{name_of(cfg)}:{type(e).__name__}"] = \
-            stats["skipped_other_finding"].get(f"{name_of(cfg)}:{type(e).__name__}", 0) + 1
+        key = f"{name_of(cfg)}:{type(e).__name__}"
+        stats["skipped_other_finding"][key] = stats["skipped_other_finding"].get(key, 0) + 1
         return False
     if l.npoints == 0:
         return False
-    if getattr(l, "pending_points", None):
-        if len(l.pending_points):
-            stats["skipped_pending"] += 1
-            return False
+    if outstanding(l, cfg):
+        stats["skipped_pending"] += 1
+        return False
     name = name_of(cfg)
     replay = {"cfg": cfg, "seed": seed}
-    copies = {}
+    twin_ok = same_val(data_of(l, cfg), data_of(l2, cfg))
+    stats["twin_not_identical"] += not twin_ok
+    copies, origin = {}, {}
     for mech in MECHS:
+        src = l2 if (mech == "copy_from" and twin_ok) else l
         try:
-            copies[mech] = restore(l, cfg, mech, workdir, tag)
+            c = restore(src, cfg, mech, workdir, tag)
+            if c is None:
+                stats["pickle_closure_loss_not_picklable"] += 1
+            else:
+                copies[mech] = c
+                origin[mech] = src
         except Exception as e:
             chk.fail(f"C13:{name}:{mech} raises", f"{name} {cfg}: {mech} round trip raised {type(e).__name__}: {str(e)[:200]}",
                      dict(replay, mech=mech))
@@ -391,6 +451,8 @@ def check_case(chk, cfg, seed, stats, workdir, tag):
     # data first (asks below mutate the learners)
     for mech, c in copies.items():
         stats["roundtrips"] += 1
+        d0, m0 = data_of(origin[mech], cfg), means_of(origin[mech], cfg)
+        loss0 = float(origin[mech].loss())
         d1 = data_of(c, cfg)
         if not same_val(d0, d1):
             what = _first_diff(d0, d1)
@@ -411,23 +473,32 @@ def check_case(chk, cfg, seed, stats, workdir, tag):
                 chk.fail(f"C13:{name}:{mech} loss differs", f"{name} {cfg} after {len(hist)} results: {mech}: loss() {loss1!r} vs original {loss0!r}",
                          dict(replay, mech=mech))
                 return True
-    # the next ten suggestions
-    try:
-        a0 = l.ask(10)
-    except RuntimeError as e:
-        if "No way to improve" not in str(e):
-            raise
-        a0 = None
+    # the next ten suggestions; the copy made by copy_from answers first (it may share containers with
+    # its own original, the twin, which is not used any more)
+    def ask10(x):
+        try:
+            if cfg.get("wrap") == "balancing" and cfg["kind"] == "int":
+                return [k.ask(10) for k in x.learners]
+            return x.ask(10)
+        except RuntimeError as e:
+            if "No way to improve" not in str(e):
+                raise
+            return None
+        except Exception as e:       # an internal error of ask (other properties' findings): the copy must behave alike
+            stats["ask_raises"] += 1
+            return ([("raised", type(e).__name__)], [0.0])
+
+    answers = {}
+    if "copy_from" in copies and twin_ok:
+        answers["copy_from"] = ask10(copies["copy_from"])
+    a0 = ask10(l)
     for mech, c in copies.items():
         _, want_ask = demands(cfg, mech)
         if not want_ask:
             continue
-        try:
-            a1 = c.ask(10)
-        except RuntimeError as e:
-            if "No way to improve" not in str(e):
-                raise
-            a1 = None
+        if mech == "copy_from" and not twin_ok:
+            continue
+        a1 = answers[mech] if mech in answers else ask10(c)
         stats["asks_compared"] += 1
         if (a0 is None) != (a1 is None):
             ok = False
@@ -435,8 +506,17 @@ def check_case(chk, cfg, seed, stats, workdir, tag):
             ok = True
         else:
             rt = 0 if want_ask == "exact" else ASK_RTOL
-            ok = points_equal(list(a0[0]), list(a1[0]), rt) and \
-                (close_val(a0[1], a1[1], 0 if want_ask == "exact" else 1e-9) if _numeric(a0[1]) and _numeric(a1[1]) else True)
+            pairs = list(zip(a0, a1)) if isinstance(a0, list) else [(a0, a1)]
+            ok = all((x is None) == (y is None) and (x is None or (
+                points_equal(list(x[0]), list(y[0]), rt) and
+                (close_val(x[1], y[1], 0 if want_ask == "exact" else 1e-9) if _numeric(x[1]) and _numeric(y[1]) else True)))
+                for x, y in pairs)
+        if not ok and cfg.get("strategy") == "cycle" and cfg.get("wrap") == "balancing" and a0 and a1 \
+                and [p[0] for p in a1[0]] == [i % len(l.learners) for i in range(len(a1[0]))] \
+                and [p[0] for p in a0[0]] != [p[0] for p in a1[0]]:
+            chk.fail(SIG_CYCLE, f"{name} {cfg} after {len(hist)} results: {mech}: the original continues with children "
+                                f"{[p[0] for p in a0[0]]}, the restored copy with {[p[0] for p in a1[0]]}", dict(replay, mech=mech))
+            continue
         if not ok:
             chk.fail(f"C13:{name}:{mech} next suggestions differ",
                      f"{name} {cfg} after {len(hist)} results: {mech}: ask(10) = {_short(a1)} vs original {_short(a0)}", dict(replay, mech=mech))
@@ -489,8 +569,10 @@ def learner2d_usable():
 def plan(chk):
     """(cfg, seed) list: every base learner, BalancingLearner over each, DataSaver over each."""
     quick = chk.quick
-    per = {"l1d": 40, "lnd2": 14, "lnd3": 6, "avg": 14, "avg1d": 12, "seq": 14, "int": 14} if quick else \
-          {"l1d": 400, "lnd2": 120, "lnd3": 40, "avg": 100, "avg1d": 100, "seq": 100, "int": 120}
+    per = {"l1d": (80, 25, 25), "lnd2": (24, 10, 10), "lnd3": (8, 4, 4), "avg": (20, 8, 8), "avg1d": (16, 8, 8),
+           "seq": (20, 8, 8), "int": (30, 10, 10)} if quick else \
+          {"l1d": (300, 60, 60), "lnd2": (80, 25, 25), "lnd3": (30, 10, 10), "avg": (60, 20, 20),
+           "avg1d": (60, 20, 20), "seq": (60, 20, 20), "int": (80, 25, 25)}
     kinds = list(BASE_KINDS)
     ok2d, why = learner2d_usable()
     if ok2d:
@@ -498,25 +580,30 @@ def plan(chk):
         per["l2d"] = per["lnd2"]
     out = []
     for kind in kinds:
-        for k in range(per[kind]):
-            rng = chk.rng("cfg", kind, k)
-            cfg = gen_cfg(rng, kind, quick)
-            r = k % 5
-            if r == 3:
-                cfg["wrap"] = "balancing"
-                cfg["scales"] = rng.choice([[1.0, 0.5], [1.0, 2.0, -1.0], [1.0]])
-                cfg["strategy"] = rng.choice(["loss_improvements", "loss", "npoints"])
-                cfg["n"] = min(cfg["n"] * len(cfg["scales"]), 60 if kind != "int" else 200)
-            elif r == 4:
-                cfg["wrap"] = "datasaver"
-            out.append((cfg, chk.rng("hist", kind, k).randrange(2 ** 31)))
+        for wi, wrap in enumerate([None, "balancing", "datasaver"]):
+            for k in range(per[kind][wi]):
+                rng = chk.rng("cfg", kind, wrap, k)
+                cfg = gen_cfg(rng, kind, quick)
+                if wrap == "balancing":
+                    cfg["wrap"] = "balancing"
+                    cfg["scales"] = rng.choice([[1.0, 0.5], [1.0, 2.0, -1.0], [1.0]])
+                    cfg["strategy"] = rng.choice(["loss_improvements", "loss", "npoints", "cycle"]) if not kind.startswith("lnd") \
+                        else rng.choice(["loss_improvements", "loss_improvements", "cycle", "npoints"])
+                    # (strategy 'loss' / 'npoints' ask a LearnerND child with tell_pending=True and then call
+                    #  tell_pending again: ValueError "Point already in triangulation" -- another property's business)
+                    cfg["n"] = min(cfg["n"] * len(cfg["scales"]), 60 if kind != "int" else 200)
+                    if kind == "seq":
+                        cfg["ntotal"] = cfg["n"] + 25        # a BalancingLearner cannot ask an exhausted child
+                elif wrap == "datasaver":
+                    cfg["wrap"] = "datasaver"
+                out.append((cfg, chk.rng("hist", kind, wrap, k).randrange(2 ** 31)))
     return out, ok2d, why
 
 
 def run(chk: Check) -> int:
     chk.prove(["theories/Props/C13.vo"], THEOREMS)
     stats = {"roundtrips": 0, "loss_compared": 0, "asks_compared": 0, "skipped_pending": 0,
-             "skipped_other_finding": {}, "usable": {}, "histories": 0}
+             "pickle_closure_loss_not_picklable": 0, "twin_not_identical": 0, "ask_raises": 0, "skipped_other_finding": {}, "usable": {}, "histories": 0}
     cases, ok2d, why = plan(chk)
     if not ok2d:
         chk.fail(SIG_F7, f"Learner2D cannot be driven past its corner points on this platform ({why}); "
@@ -524,14 +611,18 @@ def run(chk: Check) -> int:
     import warnings
     warnings.filterwarnings("ignore")
     for i, (cfg, seed) in enumerate(cases):
-        usable = check_case(chk, cfg, seed, stats, chk.work, f"c{i}")
+        for attempt in range(5):          # a history that runs into another property's finding is replaced
+            usable = check_case(chk, cfg, seed + attempt, stats, chk.work, f"c{i}")
+            if usable:
+                seed += attempt
+                break
         stats["histories"] += 1
         nm = name_of(cfg)
         stats["usable"][nm] = stats["usable"].get(nm, 0) + bool(usable)
         chk.note_case((cfg, seed), usable and cfg["n"] >= 5)
         if usable and i % 37 == 0:
             chk.sample({"learner": nm, "cfg": {k: v for k, v in cfg.items() if k != "kind"}, "mechanisms": MECHS})
-        if len(chk.failures) > 8:
+        if len(chk.failures) > 40:
             break
     for nm, n in stats["usable"].items():
         if n == 0:
@@ -546,7 +637,7 @@ def run(chk: Check) -> int:
     return chk.finish(
         rule="for each learner type that runs here (Learner1D scalar/vector with 5 shipped losses and factor 1 or 2, LearnerND 2D/3D "
              "scalar/vector, AverageLearner, AverageLearner1D, SequenceLearner, IntegratorLearner) and for BalancingLearner "
-             "(1-3 children, 3 strategies) and DataSaver around each: an ask-driven history with out-of-order delivery that ends "
+             "(1-3 children, 4 strategies) and DataSaver around each: an ask-driven history with out-of-order delivery that ends "
              "with nothing pending, then save/load gzip and raw into new(), pickle, cloudpickle, new().copy_from(); data compared "
              "exactly (arrays elementwise, extra_data, per-child data), loss() exactly for pickles and to 1e-12 for file/copy_from "
              "where the state is a function of the data, next ten suggestions exactly for pickles / to 1e-10 otherwise "
@@ -582,7 +673,8 @@ def replay(doc) -> int:
         if "bounds" in cfg:
             cfg["bounds"] = tuple(cfg["bounds"])
         sink = Sink()
-        stats = {"roundtrips": 0, "loss_compared": 0, "asks_compared": 0, "skipped_pending": 0, "skipped_other_finding": {}}
+        stats = {"roundtrips": 0, "loss_compared": 0, "asks_compared": 0, "skipped_pending": 0,
+                 "pickle_closure_loss_not_picklable": 0, "twin_not_identical": 0, "ask_raises": 0, "skipped_other_finding": {}}
         check_case(sink, cfg, r["seed"], stats, work, "replay")
         print("replayed", name_of(cfg), cfg, "->", sink.failures[:1] or "oracle silent")
         bad += bool(sink.failures)
